@@ -15,7 +15,7 @@ Definition request (k : kind) (blob : list byte) : list byte :=
 
 (* the checksum comparison lives inside the oracle's o_deser; the handler's answer is a function of the request bytes *)
 Definition handler_reply (c : cfg) (O : vm_oracle) (k : kind) (_ : N) (blob : list byte) : list byte :=
-  fst (client_thread c O (request k blob) None d0).
+  fst (client_thread c O (request k blob) None (boot c)).
 
 Lemma request_not_status k blob h rest : recv_header (request k blob) = ROk h rest -> h_type h <> VMD_MSG_STATUS.
 Proof.
@@ -32,13 +32,13 @@ Qed.
 Theorem concurrent_reply_is_handler_reply c O sched ls0 cl d :
   init_ok ls0 ->
   (budget (ls0 cl) <= count_occ Nat.eq_dec sched cl)%nat ->
-  Vmd.alive d = true ->
+  Vmd.alive d = true -> sigign d = c_ignores_sigpipe c ->
   l_out (snd (run (handler_reply c O) sched (shared0, ls0)) cl) =
   fst (client_thread c O (request (l_kind (ls0 cl)) (l_blob (ls0 cl))) None d).
 Proof.
-  intros H0 Hs Ha. destruct (H0 cl) as (k & b & E).
+  intros H0 Hs Ha Hsg. destruct (H0 cl) as (k & b & E).
   assert (MU : mu (ls0 cl) = budget (ls0 cl)) by (rewrite E; reflexivity).
   destruct (session_result (handler_reply c O) sched ls0 cl H0 ltac:(lia)) as (_ & HO & _).
   rewrite HO. unfold result, handler_reply.
-  apply reply_independent; [reflexivity|exact Ha|]. apply request_not_status.
+  apply reply_independent; [reflexivity|exact Ha|symmetry; exact Hsg|]. apply request_not_status.
 Qed.
